@@ -8,7 +8,10 @@ string set with anyOf/allOf, fk set) for values that spell words / syntax of the
 values (empty string, blanks, quotes, control bytes, non-UTF-8 stored bytes, long) and escape-alphabet strings;
 stream M: filters with SEVERAL comparisons in which literals repeat (identical token, case variant, prefix, escaped
 spelling) across operators, fields, in-lists, set functions and sub-queries, joined by and / or / not, and sequences of
-filters parsed in one process - every literal occurrence must denote its own string (model Lang/StrFilter.v)."""
+filters parsed in one process - every literal occurrence must denote its own string (model Lang/StrFilter.v);
+in-lists by LENGTH and ORDER (c11l.go, Q and M cases): 1..21 and 32 / 64 / 257 literals (thorough up to 1000) written ascending,
+descending, shuffled, with duplicates, rotated, the probed literal at every position, every list value a stored row - membership
+in the set of denoted strings whatever the length and order (theorem in_list_length_order_independent)."""
 import json
 import os
 
@@ -846,6 +849,10 @@ def main(argv):
                      "of its relatives - case variants, prefix, extension, blanks, escaped spelling -, set-valued left-hand sides, "
                      "isEmpty / count sub-queries with the literal inside and outside, random and / or / not trees), parsed in "
                      "order before evaluation and parsed again afterwards, over rows with two fields, a set and an fk set. "
+                     "In-lists by length and order (Q and M cases): 1..21 (thorough 1..32) and 32 / 64 / 257 (thorough .. 1000) literals, "
+                     "ascending / descending / shuffled / duplicates / rotated / one swap, the literal of s at every position, in and "
+                     "not in, letters / ids / prefixes incl. the empty string / long common prefix / mixed values, rows = every list "
+                     "value + non-members around the smallest, median and largest. "
                      "Non-trivial: contains a backslash, "
                      "quote or control character (L), a backslash (T), any body (B), any expressible E case, a Q / M case whose "
                      "oracle selects some rows and rejects others; distinct by case text"
